@@ -335,6 +335,16 @@ func (doc *Document) AddFamilyWithHusbandAndWife(pointer string, husband, wife *
 func (doc *Document) DeleteNode(node Node) (didDelete bool) {
 	doc.nodes, didDelete = doc.nodes.deleteNode(node)
 
+	// Everything that was derived from the root nodes has to be derived again.
+	if didDelete {
+		doc.families = nil
+		doc.buildPointerCache()
+
+		for _, individual := range doc.Individuals() {
+			individual.resetCache()
+		}
+	}
+
 	return
 }
 
